@@ -2,6 +2,7 @@
 import CoreDhcp.Props.C20
 import CoreDhcp.Props.C02
 import CoreDhcp.Props.C03
+import CoreDhcp.Props.C03Key
 import CoreDhcp.Props.C04
 import CoreDhcp.Props.C05
 import CoreDhcp.Props.C06
@@ -126,3 +127,9 @@ open CoreDhcp
 #print axioms C19_oversize6_refuted
 #print axioms C13_nil_stop_builtin
 #print axioms C13_nil_stop_builtin6
+#print axioms C03_key_roundtrip
+#print axioms C03_macString_injective
+#print axioms C03_parse_macString
+#print axioms C03_hkey_total
+#print axioms C03_holds_concrete
+#print axioms C03_restore_concrete
